@@ -299,8 +299,11 @@ func c08Engine(c *Ctx, an *effects.Analysis, root c08RootSpec, sizeFns, isMS map
 			st.Assume(v)
 			st.Assume(v.Neg().AddConst(c05MaxBytes))
 			if f == wsFn && len(args) == 1 {
+				if os.Getenv("C08_DEBUG") != "" {
+					fmt.Fprintf(os.Stderr, "WS hook in %s arg=%T actual=%T ctx=%s\n", in.Parent().Name(), args[0], e.ActualOf(args[0]), e.CallString())
+				}
 				// type-shape lower bound (C05-XR): the fixed part of the argument's static type
-				if mi, ok := args[0].(*ssa.MakeInterface); ok {
+				if mi, ok := e.ActualOf(args[0]).(*ssa.MakeInterface); ok {
 					wf := wireFormOf(mi.X.Type(), "", 0)
 					interfaceOnly := true
 					for _, pr := range wf.probs {
@@ -356,8 +359,10 @@ func c08Root(c *Ctx, an *effects.Analysis, root c08RootSpec, sizeFns, isMS map[*
 		if !ex.Bad {
 			extr[k] = extractRec{frame: e.CallString(), expr: e.LinString(st.Subst(ex)), shift: shift, width: width}
 		}
-		if sw, ok := c08SignedWire[core.FuncName(x.Parent())]; ok && int64(sw.bits) == width && isSignedInt(x.X.Type()) && !isSignedInt(x.Type()) {
-			v := e.ExprOf(st, x.X)
+		// the conversion that emits the top bits of the signed wire unit: the whole unit at once, or the
+		// highest extraction (value >> shift) of a byte-extraction family covering exactly its width
+		if sw, ok := c08SignedWire[core.FuncName(x.Parent())]; ok && int64(sw.bits) == shift+width && isSignedInt(base.Type()) && !isSignedInt(x.Type()) {
+			v := ex
 			lim := int64(1) << (sw.bits - 1)
 			okr := !v.Bad && st.Entails(v.AddConst(lim)) && st.Entails(v.Neg().AddConst(lim-1))
 			if prev, seen := signedOK[k]; seen {
